@@ -40,6 +40,12 @@ Proof. destruct c as [|[|k] i j]; reflexivity. Qed.
 Lemma present_latt g c : present g c -> latt g c.
 Proof. destruct c as [|[|k] i j]; cbn; intuition lia. Qed.
 
+Lemma present_rock g k i j : present g (Cell k i j) -> (1 <= k)%nat ->
+  (1 <= k <= nz g)%nat /\ (i < nx g)%nat /\ (j < ny g)%nat /\ has g k i j = true.
+Proof. destruct k; [lia|]. cbn. tauto. Qed.
+Lemma rock_present g k i j : (1 <= k <= nz g)%nat -> (i < nx g)%nat -> (j < ny g)%nat -> has g k i j = true -> present g (Cell k i j).
+Proof. destruct k; [lia|]. cbn. tauto. Qed.
+
 Lemma in_cells_iff g c : In c (cells g) <-> present g (cc c) /\ c = cellof g (cc c).
 Proof.
   unfold cells. rewrite in_app_iff. split.
@@ -168,7 +174,14 @@ Definition incident (l : linkrec) (c : cid) : Prop := la l = c \/ lb l = c.
 Definition lastok (last : option cid) (l : linkrec) : Prop :=
   match last with None => True | Some x => la l <> x /\ lb l <> x end.
 
+Lemma other_la l c : la l = c -> other l c = lb l.
+Proof. intros <-. unfold other. rewrite cid_eqb_refl. reflexivity. Qed.
+Lemma other_lb l c : la l <> c -> other l c = la l.
+Proof. intros H. unfold other. apply cid_eqb_neq in H. rewrite H. reflexivity. Qed.
+
+
 Section Named.
+Set Default Proof Using "All".
 Variable K : Type.
 Variable keqb : K -> K -> bool.
 Hypothesis keqb_spec : forall a b, keqb a b = true <-> a = b.
@@ -315,6 +328,9 @@ Proof.
 Qed.
 
 (** distances and directions read through a connection name *)
+Lemma has_dir_link l dir : link_shape g l -> has_dir K keqb G dir (nm (la l), nm (lb l)) = (ldir l =? dir)%nat.
+Proof. intros S. unfold has_dir, dir_of. rewrite (find_conn_link l S). reflexivity. Qed.
+
 Lemma dist_at_link l c : link_shape g l -> latt g c ->
   dist_at K keqb G (nm (la l), nm (lb l)) (nm c) = if cid_eqb (la l) c then lda l else ldb l.
 Proof.
